@@ -128,10 +128,15 @@ def _rtimer(rnd):
 
 def _rname(rnd, n):
     s = rnd.choice(["Living", "Küche", "Büro", "Z", "", "Bed 1", "寝室", "Master", "x" * n, "UUU",
-                    "U" * n])
+                    "U" * n, "Cafe\u0301", "\u2126 room"])
     while len(s.encode()) > n:
         s = s[:-1]
     return s
+
+
+def _rtail(rnd):
+    """What may be left behind the terminator of a fixed-width name (mostly nothing)."""
+    return rnd.choice([None, None, None, b"\xff", b"old name", b"\xc3", b"\xe2\x82"])
 
 
 def _rmodes(rnd):
@@ -175,7 +180,8 @@ def random_status_frame(gen, rnd, pid=None):
             return k, R.frame(4, TO, STD, pid, 0x2D, b"".join(recs))
         if k == "ability":
             recs = [R.b4_ability_record(
-                {"ac": a, "name": _rname(rnd, 16), "start": rnd.randint(0, 15),
+                {"ac": a, "name": _rname(rnd, 16), "name_tail": _rtail(rnd),
+                 "start": rnd.randint(0, 15),
                  "count": rnd.randint(0, 16), "modes": _rmodes(rnd), "fans": _rfans(rnd),
                  "min_sp": rnd.randint(0, 255), "max_sp": rnd.randint(0, 255),
                  "groups": rnd.choice([None, {g for g in range(16) if rnd.random() < 0.4}])})
@@ -184,7 +190,7 @@ def random_status_frame(gen, rnd, pid=None):
         if k == "names":
             gs = rnd.sample(range(16), rnd.randint(1, 8))
             return k, R.frame(4, TO, EXT, pid, 0x1F, R.ext(0xFF12, b"".join(
-                bytes([g]) + R._name_fixed(_rname(rnd, 8), 8) for g in gs)))
+                bytes([g]) + R._name_fixed(_rname(rnd, 8), 8, _rtail(rnd)) for g in gs)))
         if k == "version":
             return k, R.frame(4, TO, EXT, pid, 0x1F, R.ext(0xFF30, R.version_body(
                 rnd.random() < 0.5, rnd.choice([["1.3.3"], ["1.3.3", "1.3.2"], ["2"]]), "|")))
@@ -221,7 +227,8 @@ def random_status_frame(gen, rnd, pid=None):
         return k, R.frame(5, TO, STD, pid, 0xC0, R.c0(0x23, st, recs))
     if k == "ability":
         recs = [R.b5_ability_record(
-            {"ac": a, "name": _rname(rnd, 16), "start": rnd.randint(0, 15),
+            {"ac": a, "name": _rname(rnd, 16), "name_tail": _rtail(rnd),
+             "start": rnd.randint(0, 15),
              "count": rnd.randint(0, 16), "modes": _rmodes(rnd), "fans": _rfans(rnd),
              "min_cool": rnd.randint(0, 255), "max_cool": rnd.randint(0, 255),
              "min_heat": rnd.randint(0, 255), "max_heat": rnd.randint(0, 255)})
